@@ -20,10 +20,14 @@ ShapeCases(nx) ==
      l \in {-40, -33, 0, 385}, b \in {-7, 0, 130}, ny \in {1, 3, 4}, kx \in {128, 96, 48}, ky \in {128, 64}, an \in Anchors, tg \in BOOLEAN, rt \in {"bbox", "polygon"}}
 IShapeCases == {[mode |-> "ishape", l |-> l, b |-> b, nlong |-> n, k |-> k, other |-> ot, wide |-> w, tight |-> TRUE, tol |-> <<1, 100>>, route |-> "bbox", shift |-> 0] :
                   l \in {-33, 0}, b \in {0, 77}, n \in {1, 4, 7}, k \in {128, 96}, ot \in {50, 96, 300}, w \in BOOLEAN}
+\* regions that are not their own envelope, given in a CRS that bends straight lines relative to the requested one
+RegionCases == {[mode |-> "region", route |-> "polygon_real_crs", geo |-> g, pair |-> pr, resk |-> k, anchor |-> an, tight |-> tg, tol |-> tl, shift |-> 0] :
+                  g \in {"diamond", "triangle", "line", "box", "multipoint"}, pr \in {"4326>3035", "4326>32633", "3577>4326", "3035>4326", "32633>3857"},
+                  k \in {1, 3}, an \in {"edge", "center", "floating"}, tg \in BOOLEAN, tl \in {<<1, 100>>, <<1, 10>>}}
 VARIABLE c
 Init == c \in {[mode |-> "chunk", k |-> "res", v |-> r] : r \in Rs \cup {-x : x \in Rs}} \cup {[mode |-> "chunk", k |-> "shape", v |-> n] : n \in {1, 2, 5}}
-             \cup {[mode |-> "chunk", k |-> "ishape", v |-> 0]}
-Next == c.mode = "chunk" /\ c' \in (CASE c.k = "res" -> ResCases(c.v) [] c.k = "shape" -> ShapeCases(c.v) [] c.k = "ishape" -> {x \in IShapeCases : x.other < x.nlong * x.k}) /\ Emit(c')
+             \cup {[mode |-> "chunk", k |-> "ishape", v |-> 0], [mode |-> "chunk", k |-> "region", v |-> 0]}
+Next == c.mode = "chunk" /\ c' \in (CASE c.k = "res" -> ResCases(c.v) [] c.k = "shape" -> ShapeCases(c.v) [] c.k = "ishape" -> {x \in IShapeCases : x.other < x.nlong * x.k} [] c.k = "region" -> RegionCases) /\ Emit(c')
 Spec == Init /\ [][Next]_c
 ModelOK == c.mode # "chunk" => ModelMeetsContract(c)
 =============================================================================
